@@ -53,7 +53,8 @@ Definition ds_take (f : form) (tol : tolv) (keepdims : bool) (s : dset) : res ds
   let! vars := mapM_vars (fun a =>
       let vps := map (fun d => match find (fun p => String.eqb (fst p) d) byname with
                                | Some p => snd p | None => XFull end) (dims a) in
-      if all_int vps then
+      if match axes a with [] => true | _ => false end then Ok a     (* scalar items are left unchanged, metadata included *)
+      else if all_int vps then
         let c := get (vals a) (src_of vps []) in
         Ok (mkarr [] {| sh := []; dat := [c]; kd := kd (vals a) |} [])
       else Ok (mkarr (getaxes (axes a) vps) (np_outer vps (vals a)) (attrs a))) (ds_vars_arr s) in
